@@ -29,7 +29,9 @@ REQUIRED = ["at_most_once_atomic", "at_most_one_success_atomic", "at_most_one_su
             "at_most_once_partial", "mark_separated_partial",
             "store_fault_fails_closed", "nonce_covers_window", "replay_window_empty_today", "s2s_no_replay_inside_window", "program_matches_api_calls",
             "fact_consumer_calls", "fact_store_keys", "fact_call_sites", "fact_engine_wiring", "fact_requests_are_self_contained", "fact_keyspace_disjoint", "keyspace_disjoint", "keyspace_disjoint_redis", "fact_key_construction", "put_total_on_keys", "fact_store_users", "fact_prefixes_distinct", "fact_gad_atomic_today",
-            "fact_mark_atomic_today", "fact_session_store_shapes", "fact_ttls_positive", "two_success_witness_multinode"]
+            "fact_mark_atomic_today", "fact_session_store_shapes", "fact_ttls_positive", "two_success_witness_multinode",
+            # request-level layer (Props/C05Forms.lean)
+            "fact_form_sources", "fact_form_tables", "code_dead_after_any_attempt", "vp_nonce_dead_after_any_response", "refused_grant_touches_nothing"]
 
 
 def oracle(op, line, facts):
@@ -113,6 +115,11 @@ def forms_oracle(op, line, facts):
         # every authorization code the token endpoint was shown is gone at the end, whatever the answer was
         if code_req and ("code/" + r["code"]) in live:
             bad.append((f"C05:code:{where}:form-code-alive-after-attempt", f"request {j} presented code {r['code']!r} (answer {a}); the code is still stored at the end"))
+        # "burn them all": every nonce a response named is gone at the end, once the response reached the nonce check
+        if r["t"] == "response" and "state" in r and not r.get("unknownState") and r.get("vp"):
+            for n in sorted({_pres_nonce(p) for p in r["vp"]} - {""}):
+                if ("vpnonce/" + n) in live:
+                    bad.append((f"C05:vpnonce:{where}:form-nonce-alive-after-attempt", f"request {j} named nonce {n!r} (answer {a}); the nonce is still stored at the end"))
         if a != "200":
             continue
         if code_req:
